@@ -230,6 +230,48 @@ def check_render(case):
                 show=common.show(d, 150))
 
 
+def enum_circuit_boxes(tier):
+    """ Every variant of the circuit boxes that have a drawing routine of
+    their own (measurements, encodings, discards and mixed states over every
+    mix of wires, kets, bras, bits, copies, controlled gates, swaps). """
+    from harness.props.c12 import box_variants
+    for b in box_variants():
+        yield {"b": b}
+    for t in (["qubit", "qubit", "bit"], ["bit", "bit", "qubit"],
+              ["bit", "qubit", "bit"]):
+        yield {"b": {"k": "g", "g": "Discard", "a": t}}
+        yield {"b": {"k": "g", "g": "MixedState", "a": t}}
+    for g in ("X", "Z", "H", "Y", "S"):
+        yield {"b": {"k": "g", "g": "C", "a": [{"k": "g", "g": g}]}}
+    for g in ("CX", "CZ"):
+        yield {"b": {"k": "g", "g": g}}
+
+
+def check_circuit_box(case):
+    from harness import qspec  # noqa: F401 (registers the circuit class)
+    b = case["b"]
+    spec = {"cls": "circuit", "dom": specs.bdom(b), "layers": [[b, 0]]}
+    d = specs.build(spec)
+    wide = d.id(d.dom[:1]) @ d @ d.id(d.cod[:1]) if (d.dom or d.cod) else d
+    for what, diagram in (("alone", d), ("between wires", wide)):
+        if not len(diagram.dom) and not len(diagram.cod)\
+                and not len(diagram):
+            continue
+        with tempfile.TemporaryDirectory(prefix="verif-c20-") as tmp:
+            diagram.draw(to_tikz=True, path=os.path.join(tmp, "d.tikz"),
+                         show=False)
+            diagram.draw(path=os.path.join(tmp, "d.png"), show=False)
+            import matplotlib.pyplot as plt
+            plt.close("all")
+            require(os.path.getsize(os.path.join(tmp, "d.png")) > 0
+                    and "\\begin{tikzpicture}" in open(
+                        os.path.join(tmp, "d.tikz")).read(),
+                    "C20:empty-image", "{} {}".format(d, what))
+        layout_checks(diagram)
+    return dict(nt=len(d.dom) + len(d.cod) >= 2, labels=[b.get("g", b["k"])],
+                show=common.show(d, 100))
+
+
 # ------------------------------------------------------------------ diagramize
 
 @st.composite
@@ -285,6 +327,10 @@ core.register("C20", [
           "generated monoidal, rigid, circuit, tensor and ZX diagrams (with "
           "bubbles, special circuit boxes, spiders) without error; TikZ "
           "environments balanced"),
+    Facet("circuit_boxes", None, check_circuit_box, enum=enum_circuit_boxes,
+          shards_quick=8, rule="every variant of the circuit boxes with a "
+          "drawing routine of their own, alone and between two wires, through "
+          "both back-ends and the layout oracle"),
     Facet("diagramize", diagramize_cases, check_diagramize, n_quick=1000,
           shards_quick=2, rule="a generated diagram re-declared with the "
           "function-call syntax (boxes applied to the current wires in "
